@@ -183,11 +183,12 @@ fn finish(r: &Report, wall: f64) {
     let mut replay_paths = Vec::new();
     for (n, v) in &unknown {
         let h = engine::fnv(v.class.as_bytes());
-        let path = format!("/verif/replays/{}-{:016x}.json", r.id, h);
+        let out_dir = std::env::var("VERIF_OUT_DIR").unwrap_or_else(|_| "/verif".to_string());
+        let path = format!("{}/replays/{}-{:016x}.json", out_dir, r.id, h);
         let body = json!({
             "property": r.id, "class": v.class, "count": n, "case": v.case, "detail": v.detail,
         });
-        let _ = std::fs::create_dir_all("/verif/replays");
+        let _ = std::fs::create_dir_all(format!("{}/replays", out_dir));
         let _ = std::fs::write(&path, serde_json::to_string_pretty(&body).unwrap());
         replay_paths.push(path);
     }
@@ -229,8 +230,10 @@ fn finish(r: &Report, wall: f64) {
         "violations": unknown.len(),
         "machinery_errors": merrs,
     });
-    let _ = std::fs::create_dir_all("/verif/evidence");
-    let path = format!("/verif/evidence/{}.json", r.id);
+    // VERIF_OUT_DIR redirects evidence/replays (used for background experiments; registered commands never set it)
+    let out_dir = std::env::var("VERIF_OUT_DIR").unwrap_or_else(|_| "/verif".to_string());
+    let _ = std::fs::create_dir_all(format!("{}/evidence", out_dir));
+    let path = format!("{}/evidence/{}.json", out_dir, r.id);
     std::fs::write(&path, serde_json::to_string_pretty(&ev).unwrap() + "\n").expect("write evidence");
 
     println!(
